@@ -253,6 +253,8 @@ XCHECK = [
      "(ls_start [0;10;20;30]%Z (Some 12%Z), ls_stop [0;10;20;30]%Z (Some 12%Z) (Some 22%Z), loc_divisions [0;10;20;30]%Z (Some 12%Z) (Some 22%Z), loc_parts [0;10;20;30]%Z [[0;5];[10;15];[20;25;30]]%Z (Some 12%Z) (Some 22%Z))"),
     ("(sp_model (0 10 10 30) (30 0 10 29 9 -1 31))",
      "(map (sp_part [0;10;10;30]%Z) [30;0;10;29;9;-1;31]%Z, sp_parts [0;10;10;30]%Z [30;0;10;29;9;-1;31]%Z)"),
+    ("(sp_model_desc (0 10 10 30) (30 0 10 29 9 -1 31))",
+     "(map (sp_part_desc [0;10;10;30]%Z) [30;0;10;29;9;-1;31]%Z, sp_parts_desc [0;10;10;30]%Z [30;0;10;29;9;-1;31]%Z)"),
 ]
 
 
@@ -479,7 +481,7 @@ class Run:
 
 COMMON_TRUSTED = [
     "Coq 8.16.1 kernel (coqc), vm_compute for reflective/bounded lemmas; no native_compute",
-    "extraction to OCaml with ExtrOcamlBasic only (its Extract Inductive for bool,list,option,prod,unit,sumbool) + ocaml/driver.ml glue; 32 fixed calls are evaluated by the server and by vm_compute inside Coq on every run and compared (coverage.extraction_cross_check)",
+    "extraction to OCaml with ExtrOcamlBasic only (its Extract Inductive for bool,list,option,prod,unit,sumbool) + ocaml/driver.ml glue; 33 fixed calls are evaluated by the server and by vm_compute inside Coq on every run and compared (coverage.extraction_cross_check)",
     "the Gallina model is hand-written and tied to /repo by the correspondence runs reported in this file, except: the class table (harness/gen_tables.py) and the bodies of 11 small methods (harness/gen_source.py, a ~300-line Python-AST -> Gallina translator over coq/PySeq.v, fail-closed) are regenerated from the source on every run; the translators and PySeq.v's reading of Python indexing/slicing are trusted",
 ]
 
